@@ -107,7 +107,8 @@ class Coverage:
 
 # ------------------------------------------------------ known findings ------
 def load_known():
-    fn = os.path.join(VERIF, 'known_findings.json')
+    fn = os.environ.get('VERIF_KNOWN_FILE',
+                        os.path.join(VERIF, 'known_findings.json'))
     if not os.path.exists(fn):
         return []
     with open(fn) as f:
@@ -621,7 +622,11 @@ def run_check(check, tier, seed, jobs, budget_s, repo, n_runs=None):
     for ln in lines:
         print(ln)
     if exit_code == 0:
-        print('OK property={} held on everything explored'.format(
-            check.PROPERTY))
+        if any(ln.startswith('KNOWN-FINDING') for ln in lines):
+            print('OK property={}: nothing beyond the listed known findings'.
+                  format(check.PROPERTY))
+        else:
+            print('OK property={} held on everything explored'.format(
+                check.PROPERTY))
     sys.stdout.flush()
     return exit_code
